@@ -10,9 +10,9 @@
 
 namespace vf {
 
-enum RangeKind { RK_PTR = 0, RK_RA, RK_LIST, RK_FWD, RK_INPUT, RK_MOVE, RK_N };
+enum RangeKind { RK_PTR = 0, RK_RA, RK_LIST, RK_FWD, RK_INPUT, RK_MOVE, RK_PROTO, RK_N };
 inline const char *rkname(int k) {
-  static const char *n[] = {"ptr", "random_access", "list", "forward_list", "single_pass_input", "move_iterator"};
+  static const char *n[] = {"ptr", "random_access", "list", "forward_list", "single_pass_input", "move_iterator", "values_of_another_type"};
   return n[k];
 }
 
@@ -114,6 +114,19 @@ void with_range(int kind, const std::vector<Val> &vals, F &&f) {
       f(l.begin(), l.end());
       MonScope m;
       l.clear();
+      break;
+    }
+    case RK_PROTO: {
+      // values of another type that convert to E (as a range of double feeds a container of int)
+      std::vector<Proto> pr;
+      {
+        MonScope m;
+        for (size_t i = 0; i < vals.size(); ++i) { Proto p; p.key = vals[i].key; p.pay = vals[i].pay; p.half = 1; pr.push_back(p); }
+      }
+      const Proto *pb = pr.data();
+      f(pb, pb + vals.size());
+      MonScope m;
+      pr.clear();
       break;
     }
     default: {
